@@ -259,6 +259,7 @@ struct ToctouWorld : World
   // string's terminator lies inside them
   bool block_overrun = false;
   size_t block_asked = 0;
+  uint64_t excluded_traps = 0;
   void check_block(const void* data, bool is_string)
   {
     const SimAllocRec* a = data ? sim_alloc_find(data) : nullptr;
@@ -394,6 +395,7 @@ struct ToctouWorld : World
     verifier_entered = false;
     block_overrun = false;
     block_asked = 0;
+    excluded_traps = 0;
     got = Got();
 
     auto pA = [&](auto tag) {
@@ -611,6 +613,22 @@ struct ToctouWorld : World
           break;
         case V_CV_ARRAY_REF:
           // the verifier takes the array by reference: what it is handed must still be an application-side copy
+          if ((sc.seed >> 13) & 1) {
+            // a "validate and pass through" verifier hands back the very object it was given, and the application keeps
+            // the result by reference: what it holds must be its own object, still intact after an unrelated second
+            // verification has used the same stack
+            const std::array<char, 8>& held = pA((SimNode*)0)->name.copy_and_verify([&](const std::array<char, 8>& a) -> const std::array<char, 8>& {
+              verifier_saw(a.data(), 8);
+              return a;
+            });
+            uint64_t c0 = mmu::g.count;
+            char first = pA((SimNode*)0)->name.copy_and_verify([&](std::array<char, 8> b) { return b[0]; });
+            (void)first;
+            excluded_traps += mmu::g.count - c0; // (the second verification reads the sandbox again, as it must)
+            arr = held;
+            c.probe("verifier_result_held_by_reference_across_another_verification");
+            break;
+          }
           arr = pA((SimNode*)0)->name.copy_and_verify([&](const std::array<char, 8>& a) {
             verifier_saw(a.data(), 8);
             return a;
@@ -648,7 +666,7 @@ struct ToctouWorld : World
       }
     });
     uint64_t K = mmu::g.count;
-    uint64_t traps_after_verifier = verifier_entered ? K - traps_at_verifier : 0;
+    uint64_t traps_after_verifier = verifier_entered ? K - traps_at_verifier - excluded_traps : 0;
     mmu::disarm();
     g_host_alloc_fail_countdown = 0;
     bool alloc_fault = g_host_alloc_failed != alloc_failed_before;
@@ -992,6 +1010,7 @@ struct ToctouWorld : World
     sc.a[3] = (int64_t)(r.next() >> 2);
     sc.a[4] = (int64_t)r.below(2);
     p.ops.push_back(sc);
+    provisional_crash_record(*this, p); // (the dry execution below runs library code)
     uint64_t K = dryK(scen_of(sc));
     int nf = r.chance(1, 10) ? 0 : (int)r.range(1, 3);
     for (int i = 0; i < nf; i++) {
